@@ -147,6 +147,24 @@ def point_sets(draw, length, nmin=2, nmax=30, two_lists=True, n2max=30, families
         if not two_lists:
             p1 = list(draw(st.permutations(p1 + p2)))
             p2 = []
+    elif fam == 'across-pole':
+        # first list: a strip along one meridian from next to a pole to 10-20 lengths away from it (confined in RA, so the top slices of the
+        # chunk grid do not wrap around); second list: points on the far side of the pole (RA + 150..210 deg) whose distance from a first-list
+        # point, measured across the pole, is a stated fraction of the length
+        sgn = draw(st.sampled_from([-1, 1]))
+        ra0 = 180.0 * (1 + draw(unitf))
+        reach = L * draw(st.sampled_from([10.0, 20.0, 14.0]))
+        p1 = []
+        for k in range(n1):
+            pd = min(60.0, L * draw(st.sampled_from([0.05, 0.2, 0.4, 0.7])) if k < max(2, n1 // 3) else reach * (k + 1.0) / n1)
+            p1.append((_wrap(ra0 + 0.3 * L * draw(unitf)), sgn * (90.0 - pd)))
+        p2 = []
+        for k in range(n2):
+            b = p1[k % max(2, n1 // 3)]
+            f = draw(st.sampled_from([0.7, 0.9, 0.99, 1.01, 0.5, 1.3]))
+            pd1 = 90.0 - abs(b[1])
+            pd2 = max(f * L - pd1, 0.01 * L)
+            p2.append((_wrap(b[0] + 180.0 + 30.0 * draw(unitf)), sgn * (90.0 - pd2)))
     elif fam in ('pole-exact', 'pole-near'):
         # one or two points exactly on a pole (dec = +-90, any RA) and the rest on small circles around it whose radius is a
         # stated multiple of the length; separations from the pole are exactly those radii
